@@ -52,7 +52,9 @@ Definition amb_angle (x y : Q) (theta : Z) : bool :=
 (* a point that stays exactly on a coordinate axis gets an exact multiple of 90 degrees from atan2 *)
 Definition amb_phi (g : cylgrid) (d1 d2 x y : Q) : bool :=
   if (cg_nphi g =? 1)%Z then false
-  else if (Qeq_bool y 0 && Qeq_bool d2 0) || (Qeq_bool x 0 && Qeq_bool d1 0) then false
+  else if Qeq_bool d1 0 && Qeq_bool d2 0 && (Qeq_bool x 0 || Qeq_bool y 0) then false
+  else if Qeq_bool y 0 && Qeq_bool d2 0 then Qle_bool (Qabs x) (amb_eps * cg_dr g)   (* on the x axis: only the sign of x matters *)
+  else if Qeq_bool x 0 && Qeq_bool d1 0 then Qle_bool (Qabs y) (amb_eps * cg_dr g)
   else if Qle_bool (Qabs y) (amb_eps * 4 * (Qabs x + Qabs y)) then true
   else (* the sector found is exact: only its two borders can be close *)
     let gs := gsector (cg_dphi g) x y in
@@ -135,3 +137,24 @@ Definition check_pn (h : list (pkind * Z * list (pixel * list (list Q * Q)))) (o
   forallb2 (fun m rows => forallb (fun pr : pixel * list Q => row_ok (m (fst pr)) (snd pr)) rows)
     (pn_history {| pn_samples := 7; pn_matrix := (fun _ _ => 3); pn_kind := Power |}
                 (map (fun kt => (fst kt, map (fun pt : pixel * list (list Q * Q) => (fst pt, map mk_sample (snd pt))) (snd kt))) h)) outs.
+
+(* ---- emission_function(point, ...) of both emitters: spectrum.samples[voxel_map[cell(point)]] += 1 unless it is -1.
+   Result code as for check_call (0 disagree, 1 agree, 2 point within amb_eps of a cell border: either neighbour accepted,
+   3 outside the grid and ambiguous).  err: 0 returned, 1 IndexError ---- *)
+Definition check_emission (cellfn : vec -> cell) (ambfn : vec -> vec -> bool) (sh : shape) (vm : list Z)
+           (p : vec) (init out : list Q) (err : Z) : Z :=
+  let c := cellfn p in
+  let amb := ambfn (1, 1, 1) p in
+  if negb (in_grid sh c) then (if amb then 3 else if (err =? 1)%Z then 1 else 0)%Z
+  else if negb (err =? 0)%Z then (if amb then 3 else 0)%Z
+  else
+    let s := vm_lookup sh vm c in
+    let model := if (s >? -1)%Z then sp_add (spec_of_list init) s 1 else spec_of_list init in
+    if forallb2 (fun j o => Qeq_bool (model j) o) (zrange (length init)) out then 1%Z
+    else if amb then
+      (* exactly one bin was incremented by one, or none *)
+      let diffs := map (fun io => fst io - snd io) (combine out init) in
+      if forallb (fun d => Qeq_bool d 0 || Qeq_bool d 1) diffs && Qle_bool (Qsum diffs) 1 then 2%Z else 0%Z
+    else 0%Z.
+Definition check_emission_cart (sh : shape) (steps : vec) := check_emission (cart_cell steps) (amb_cart steps) sh.
+Definition check_emission_cyl (sh : shape) (g : cylgrid) := check_emission (cyl_cell g) (amb_cyl g) sh.
